@@ -1,4 +1,6 @@
 import PermutaModel.Props.C14
+import PermutaModel.Lemmas.C15MToSp
+import PermutaModel.Driver.C15
 /-! # C15 – property theorems that rest on C14's Theorem 3.13 (proved later in the import order)
 
 `Props/C14.lean` imports `Props/C15.lean` (its cross-consistency theorems talk about the C15 NFA), so the
@@ -44,5 +46,105 @@ theorem has_finite_pinperms_act (B : List NSeq) (hB : ∀ x ∈ B, IsPerm x) (g 
     the automaton of `{12}` accepts `UR` (the pin permutation of `1UR`… contains `12`) -/
 example : hasFinitePinperms [[0, 1]] = hasFinitePinperms ([[0, 1]].map (⟨false, false, false⟩ : D8).act) :=
   (has_finite_pinperms_act _ (by decide) _).symm
+
+/-! ## C15's own helper copies are C14's (so the theorems above can be read on the functions the C15 driver runs) -/
+
+/-- **`m_to_sp` bridge**: for EVERY word (any characters, any length) C15's copy of `m_to_sp` (op `mtosp`) and
+    C14's agree: the same strict pin word, or `KeyError` on both sides -/
+theorem mToSp_bridge (m : List Char) :
+    Model.C14.mToSp (m.map Model.C14.Letter.ofChar) =
+      match mToSp m with
+      | some v => .ok (v.map Model.C14.Letter.ofChar)
+      | none => .error .keyError :=
+  C14C15.mToSp_bridge m
+
+/-- `is_strict_pinword` bridge (op `strict`), for every word -/
+theorem isStrict_bridge (w : List Char) :
+    Model.C14.isStrict (w.map Model.C14.Letter.ofChar) = isStrict w := C14C15.isStrict_bridge w
+
+/-- non-vacuity of the bridges: a word of `M`, and a word both copies reject -/
+example : mToSp "ULULD".toList = some "2ULD".toList ∧ mToSp "UD".toList = none
+    ∧ Model.C14.mToSp ("UD".toList.map Model.C14.Letter.ofChar) = .error .keyError := by decide
+
+/-- **accepts_iff_contains, entirely on C15's own functions**: for every basis `B` and every pin sequence
+    `m ∈ L(M)` with at least two letters, `Model.C15.mToSp m` is a strict pin word `w` (`Model.C15.isStrict`),
+    `Model.C15.pinwordToPerm w` is a permutation `σ`, and the automaton `dfaForBasis B` accepts `m` **iff**
+    `σ` contains a basis element. -/
+theorem accepts_iff_contains_own (B : List NSeq) (hB : ∀ p ∈ B, IsPerm p) (m : List Char)
+    (hm : InM m) (hlen : 2 ≤ m.length) :
+    ∃ w σ, mToSp m = some w ∧ isStrict w = true ∧ pinwordToPerm w = .ok σ
+      ∧ ((dfaForBasis B).accepts m = true ↔ ∃ p ∈ B, Contains σ p) := by
+  obtain ⟨w, σ, h1, h2, h3, h4⟩ := accepts_iff_contains B hB m hm hlen
+  rw [mToSp_bridge] at h1
+  cases hv : mToSp m with
+  | none => rw [hv] at h1; cases h1
+  | some v =>
+    rw [hv] at h1
+    simp only [Except.ok.injEq] at h1
+    subst h1
+    exact ⟨v, σ, rfl, (isStrict_bridge v).symm.trans h2, C14C15.decode_bridge v σ h3, h4⟩
+
+/-- non-vacuity: `UR ∈ L(M)`; the automaton of the basis `{1}` accepts it, so the permutation that C15's own
+    `m_to_sp` / `pinword_to_perm` give for `UR` contains `1` -/
+example : ∃ w σ, mToSp "UR".toList = some w ∧ pinwordToPerm w = .ok σ ∧ ∃ p ∈ [[0]], Contains σ p := by
+  have hm : InM "UR".toList := (dfaM_language _).mp (by decide +kernel)
+  obtain ⟨w, σ, h1, _, h3, h4⟩ := accepts_iff_contains_own [[0]] (by decide) "UR".toList hm (by decide)
+  exact ⟨w, σ, h1, h3, h4.mp (by decide +kernel)⟩
+
+/-- **has_finite_pinperms on C15's own functions**: the verdict is `True` iff the permutations of the strict
+    pin words `m_to_sp(m)`, `m ∈ L(M)`, that avoid the basis come from boundedly long `m` -/
+theorem has_finite_pinperms_iff_own (B : List NSeq) (hB : ∀ p ∈ B, IsPerm p) :
+    hasFinitePinperms B = true ↔
+      ∃ N, ∀ m w σ, InM m → mToSp m = some w → pinwordToPerm w = .ok σ →
+        (∀ p ∈ B, ¬ Contains σ p) → m.length ≤ N := by
+  rw [has_finite_pinperms_iff_bounded]
+  constructor
+  · rintro ⟨N, hN⟩
+    refine ⟨N, fun m w σ hm hw hσ hav => ?_⟩
+    by_cases hlen : 2 ≤ m.length
+    · obtain ⟨w', σ', h1, _, h3, h4⟩ := accepts_iff_contains_own B hB m hm hlen
+      rw [hw] at h1; cases h1
+      rw [hσ] at h3; cases h3
+      apply hN m hm
+      cases hb : basisAccepts B m with
+      | false => rfl
+      | true =>
+        obtain ⟨p, hp, hc⟩ := h4.mp ((pipeline_language B m).mpr ⟨hm.1, hb⟩)
+        exact absurd hc (hav p hp)
+    · cases m with
+      | nil => simp [mToSp, Generated.c15_mLetterDict] at hw
+      | cons a t =>
+        cases t with
+        | nil => simp [mToSp, Generated.c15_mLetterDict] at hw
+        | cons b t => simp at hlen
+  · rintro ⟨N, hN⟩
+    refine ⟨max N 1, fun m hm hb => ?_⟩
+    by_cases hlen : 2 ≤ m.length
+    · obtain ⟨w, σ, h1, _, h3, h4⟩ := accepts_iff_contains_own B hB m hm hlen
+      have := hN m w σ hm h1 h3 (fun p hp hc => by
+        have hacc := h4.mpr ⟨p, hp, hc⟩
+        rw [pipeline_language] at hacc
+        rw [hacc.2] at hb; cases hb)
+      omega
+    · omega
+
+/-! ## the verdict the driver prints -/
+
+/-- ops `finpin` / `finpindfa` / `finpindb`: the driver tests the run-time certificate before printing; it
+    always holds (`finpin_certificate`), so what is printed is `hasFinitePinperms B` – the function of
+    `has_finite_pinperms_iff_bounded` / `has_finite_pinperms_iff_finitely_many` -/
+theorem finpin_eq (B : List NSeq) : Driver.C15.finpin B = Proto.showBool (hasFinitePinperms B) := by
+  unfold Driver.C15.finpin
+  simp only [finpin_certificate, if_true]
+  rfl
+
+/-- op `accs`: the driver's `wordsAccept (pinwordsForBasis B)` is `basisAccepts B` -/
+theorem accs_eq (B : List NSeq) (w : List Char) : wordsAccept (pinwordsForBasis B) w = basisAccepts B w := rfl
+
+example : Driver.C15.finpin [[0]] = Proto.showBool true ∧ Driver.C15.finpin [] = Proto.showBool false := by
+  have h1 : hasFinitePinperms [[0]] = true := by decide +kernel
+  have h2 : hasFinitePinperms [] = false := by decide +kernel
+  rw [finpin_eq, finpin_eq, h1, h2]
+  exact ⟨rfl, rfl⟩
 
 end C15
